@@ -830,3 +830,184 @@ Proof.
     cbn [map forallb]. cbv beta. rewrite P1, P2, I1, I2, I3. repeat split. }
   destruct HF as (F1 & F2 & F3). rewrite F1, F2, F3. reflexivity.
 Qed.
+
+(* ====================================================================== *)
+(* Trait-level tag configuration *)
+
+(* the configuration the generated factories start from is the declared one,
+   field by field (fields left out: allow_other_tags = false, policy = Any;
+   no tag_config at all: the default, which allows everything) *)
+Theorem trait_tag_config_declared arg : trait_tag_config arg = declared_tag_config arg.
+Proof. destruct arg; reflexivity. Qed.
+
+Theorem trait_tag_config_fields t :
+  tc_allow_other_tags (trait_tag_config (Some t))
+    = match ta_allow_other_tags t with Some b => b | None => false end /\
+  tc_policy (trait_tag_config (Some t))
+    = match ta_policy t with Some p => p | None => TPAny end /\
+  tc_tags (trait_tag_config (Some t)) = ta_tags t /\
+  trait_tag_config None = mkTagConfig true TPAny [].
+Proof. repeat split. Qed.
+
+Lemma find_neg_forallb {A} (f : A -> bool) l :
+  match find (fun t => negb (f t)) l with Some _ => false | None => true end = forallb f l.
+Proof.
+  induction l as [|x l IH]; [reflexivity|]. cbn [find forallb].
+  destruct (f x); cbn [negb andb]; [exact IH|reflexivity].
+Qed.
+
+(* an endpoint is registered iff it complies with the configuration *)
+Theorem validate_tags_complies c e :
+  is_ok (validate_tags c e) = complies c (e_tags e) (e_visible e).
+Proof.
+  unfold validate_tags, complies. destruct (e_visible e); cbn [negb orb]; [|reflexivity].
+  pose proof (find_neg_forallb (has_tag c) (e_tags e)) as HF.
+  destruct (tc_policy c); cbn [policy_ok].
+  - destruct (tc_allow_other_tags c); cbn [orb andb]; [reflexivity|].
+    destruct (find (fun t => negb (has_tag c t)) (e_tags e)); cbn [is_ok]; exact HF.
+  - destruct (e_tags e) as [|t ts] eqn:E; cbn [is_nil negb andb is_ok]; [reflexivity|].
+    destruct (tc_allow_other_tags c); cbn [orb]; [reflexivity|].
+    destruct (find (fun t0 => negb (has_tag c t0)) (t :: ts)); cbn [is_ok]; exact HF.
+  - destruct (length (e_tags e) =? 1)%nat; cbn [andb is_ok]; [|reflexivity].
+    destruct (tc_allow_other_tags c); cbn [orb]; [reflexivity|].
+    destruct (find (fun t => negb (has_tag c t)) (e_tags e)); cbn [is_ok]; exact HF.
+Qed.
+
+(* the description is built iff every endpoint complies *)
+Theorem build_ok_iff c eps :
+  build_errors c eps = [] <->
+  forall e, In e eps -> complies c (e_tags e) (e_visible e) = true.
+Proof.
+  unfold build_errors. induction eps as [|e eps IH]; cbn [flat_map].
+  - split; [intros _ e []|reflexivity].
+  - pose proof (validate_tags_complies c e) as HV.
+    destruct (validate_tags c e) as [u|x]; cbn [is_ok app] in *.
+    + rewrite IH. split.
+      * intros H e' [<-|Hin]; auto.
+      * intros H e' Hin. apply H. now right.
+    + split; [discriminate|]. intros H. specialize (H e (or_introl eq_refl)). congruence.
+Qed.
+
+(* the refused operations are exactly the non-complying endpoints, in order *)
+Theorem build_errors_ids c eps :
+  map fst (build_errors c eps) =
+  map e_opid (filter (fun e => negb (complies c (e_tags e) (e_visible e))) eps).
+Proof.
+  unfold build_errors. induction eps as [|e eps IH]; [reflexivity|].
+  cbn [flat_map filter]. rewrite map_app, IH. rewrite <- validate_tags_complies.
+  destruct (validate_tags c e); reflexivity.
+Qed.
+
+(* a declared policy is in force: under AtLeastOne a published endpoint
+   without tags, under ExactlyOne one with none or several, is refused by the
+   description the trait's factories build *)
+Theorem declared_policy_in_force t e :
+  e_visible e = true ->
+  (ta_policy t = Some TPAtLeastOne -> e_tags e = [] ->
+     validate_tags (trait_tag_config (Some t)) e = Err TENeedOne) /\
+  (ta_policy t = Some TPExactlyOne -> length (e_tags e) <> 1%nat ->
+     validate_tags (trait_tag_config (Some t)) e = Err TEExactlyOne).
+Proof.
+  intros V. unfold validate_tags, trait_tag_config. rewrite V. cbn [negb tc_policy]. split.
+  - intros -> ->. reflexivity.
+  - intros -> H. apply Nat.eqb_neq in H. now rewrite H.
+Qed.
+
+(* the three forms are refused alike: the tag check does not look at the handler *)
+Lemma validate_tags_erase c e : validate_tags c (erase_handler e) = validate_tags c e.
+Proof. reflexivity. Qed.
+
+Theorem tag_check_styles_agree c st st' a e e' :
+  expand st a = Ok e -> expand st' a = Ok e' ->
+  validate_tags c e = validate_tags c e' /\ e_opid e = e_opid e'.
+Proof.
+  intros H H'. pose proof (styles_agree st st' a) as HA. unfold view in HA.
+  rewrite H, H' in HA.
+  apply (f_equal (fun r => match r with Ok x => x | Err _ => erase_handler e end)) in HA.
+  cbv beta iota in HA. split.
+  - rewrite <- (validate_tags_erase c e), <- (validate_tags_erase c e'). now rewrite HA.
+  - change (e_opid (erase_handler e) = e_opid (erase_handler e')). now rewrite HA.
+Qed.
+
+Definition expand_all (st : style) (eps : list attr) : option (list endpoint) :=
+  map_opt (fun a => match expand st a with Ok e => Some e | Err _ => None end) eps.
+
+Theorem build_styles_agree c st st' eps es es' :
+  expand_all st eps = Some es -> expand_all st' eps = Some es' ->
+  build_errors c es = build_errors c es'.
+Proof.
+  unfold expand_all. revert es es'. induction eps as [|a eps IH]; intros es es'; cbn [map_opt].
+  - intros [= <-] [= <-]. reflexivity.
+  - destruct (expand st a) as [e|] eqn:E; [|discriminate].
+    destruct (expand st' a) as [e'|] eqn:E'; [|discriminate].
+    destruct (map_opt _ eps) as [l|] eqn:L; [|discriminate].
+    destruct (map_opt (fun a0 => match expand st' a0 with Ok e0 => Some e0 | Err _ => None end) eps)
+      as [l'|] eqn:L'; [|discriminate].
+    intros [= <-] [= <-]. unfold build_errors. cbn [flat_map].
+    destruct (tag_check_styles_agree c _ _ _ _ _ E E') as [HV HO].
+    rewrite HV, HO. f_equal. exact (IH _ _ eq_refl eq_refl).
+Qed.
+
+(* with the declared fields: refused iff the DECLARATION does not comply *)
+Theorem build_errors_declared c st eps es :
+  expand_all st eps = Some es ->
+  map fst (build_errors c es) =
+  map declared_opid (filter (fun a => negb (complies c (a_tags a) (negb (a_unpublished a)))) eps).
+Proof.
+  rewrite build_errors_ids. unfold expand_all. revert es.
+  induction eps as [|a eps IH]; intros es; cbn [map_opt].
+  - intros [= <-]. reflexivity.
+  - destruct (expand st a) as [e|] eqn:E; [|discriminate].
+    destruct (map_opt _ eps) as [l|]; [|discriminate]. intros [= <-].
+    destruct (fields_as_declared _ _ _ E) as (r & c' & _ & _ & ->).
+    cbn [filter]. unfold expected at 1 2. cbn [e_tags e_visible].
+    destruct (complies c (a_tags a) (negb (a_unpublished a))); cbn [negb map].
+    + exact (IH _ eq_refl).
+    + unfold expected at 1. cbn [e_opid]. f_equal. exact (IH _ eq_refl).
+Qed.
+
+Lemma policy_eqb_refl p : policy_eqb p p = true. Proof. destruct p; reflexivity. Qed.
+Lemma details_eqb_refl d : details_eqb d d = true.
+Proof.
+  unfold details_eqb. rewrite ostr_eqb_refl. destruct (td_external_docs d) as [[x y]|]; cbn; [|reflexivity].
+  now rewrite ostr_eqb_refl, str_eqb_refl.
+Qed.
+Lemma tag_config_eqb_refl c : tag_config_eqb c c = true.
+Proof.
+  unfold tag_config_eqb. rewrite bool_eqb_refl, policy_eqb_refl. cbn [andb].
+  induction (tc_tags c) as [|x l IH]; [reflexivity|].
+  cbn [list_eqb]. now rewrite str_eqb_refl, details_eqb_refl, IH.
+Qed.
+Lemma refused_eqb_refl (l : list (str * N)) :
+  list_eqb (fun x y => str_eqb (fst x) (fst y) && (snd x =? snd y)) l l = true.
+Proof.
+  induction l as [|x l IH]; [reflexivity|]. cbn [list_eqb].
+  now rewrite str_eqb_refl, N.eqb_refl, IH.
+Qed.
+
+Definition refused_codes (c : tag_config) (es : list endpoint) : list (str * N) :=
+  map (fun p => (fst p, tag_err_code (snd p))) (build_errors c es).
+
+(* the model meets the executable specification of the tag configuration:
+   what the generated factories start from and refuse is what the judge's
+   [spec_tagcfg] demands, for every configuration and every list of accepted
+   endpoint declarations *)
+Theorem tagcfg_model_meets_spec arg eps es_f es_i es_s :
+  expand_all Function eps = Some es_f -> expand_all TraitImpl eps = Some es_i ->
+  expand_all TraitStub eps = Some es_s ->
+  let c := trait_tag_config arg in
+  spec_tagcfg arg eps [Some c; Some c]
+    [refused_codes c es_f; refused_codes c es_i; refused_codes c es_s] true = true.
+Proof.
+  intros Hf Hi Hs c. unfold spec_tagcfg.
+  assert (Hc : c = declared_tag_config arg) by apply trait_tag_config_declared.
+  rewrite <- Hc. cbn [forallb]. rewrite tag_config_eqb_refl. cbn [andb].
+  assert (Hfst : forall es, map fst (refused_codes c es) = map fst (build_errors c es)).
+  { intros es. unfold refused_codes. rewrite map_map. reflexivity. }
+  rewrite !Hfst.
+  rewrite (build_errors_declared c _ _ _ Hf), (build_errors_declared c _ _ _ Hi),
+    (build_errors_declared c _ _ _ Hs), strs_eqb_refl. cbn [andb].
+  unfold refused_codes.
+  rewrite <- (build_styles_agree c _ _ _ _ _ Hf Hi), <- (build_styles_agree c _ _ _ _ _ Hf Hs).
+  cbn [all_eq]. now rewrite refused_eqb_refl.
+Qed.
